@@ -77,7 +77,9 @@ pub struct PreCred {
     #[serde(default)]
     pub hmac_len: u8,
     /// order of the COSE key's parameters in the stored record (an item imported from elsewhere): 0 = the
-    /// library's own [crv, x, y, d]; 1 = [crv, d, x, y]; 2 = [d, y, x, crv]; 3 = [x, y, d] without crv
+    /// library's own [crv, x, y, d]; 1 = [crv, d, x, y]; 2 = [d, y, x, crv]; 3 = [x, y, d] without crv;
+    /// 4 = no alg label (the library refuses to sign with such a key); 5 = a private scalar whose leading zero
+    /// byte was dropped by the exporting side (31 bytes)
     #[serde(default)]
     pub key_layout: u8,
 }
@@ -198,6 +200,9 @@ pub enum KeyRef {
     Cred(IdRef),
     /// literal map key (for empty / undecodable keys)
     Raw(String),
+    /// the credential's id in another valid spelling: 1 = base64url with padding, 2 = standard base64 with
+    /// padding, 3 = standard base64 without padding
+    Spelled(IdRef, u8),
 }
 
 #[derive(Serialize, Deserialize, Clone, Debug, PartialEq)]
@@ -241,6 +246,10 @@ pub struct AuthSpec {
     pub prf_hashed: Option<PrfIn>,
     #[serde(default)]
     pub misc: u64,
+    /// 0 = typed options, 1 = through their JSON form, 4 = through JSON with the allow list's ids spelled in
+    /// standard base64 with padding
+    #[serde(default)]
+    pub via_json: u8,
 }
 
 pub type Salt = (Vec<u8>, Option<Vec<u8>>);
@@ -274,6 +283,10 @@ pub struct McSpec {
     /// rp / user names: 0 = short, 1 = long ASCII (> 64 bytes), 2 = long multi-byte
     #[serde(default)]
     pub names: u8,
+    /// how the request reaches the authenticator: 0 = as a typed value, 1 = through its CBOR encoding,
+    /// 2 = through a minimal CBOR encoding in which options that have their default value are omitted
+    #[serde(default)]
+    pub via_cbor: u8,
 }
 
 #[derive(Serialize, Deserialize, Clone, Debug, PartialEq)]
@@ -289,6 +302,9 @@ pub struct GaSpec {
     pub pin_empty: bool,
     pub prf: Option<CtapPrf>,
     pub via_trait: bool,
+    /// as McSpec::via_cbor
+    #[serde(default)]
+    pub via_cbor: u8,
 }
 
 #[derive(Serialize, Deserialize, Clone, Debug, PartialEq)]
